@@ -211,7 +211,7 @@ func driveC13(toks []string) string {
 		e := execution.NewTypeCast(octosql.TypeID(n), execution.NewConstant(v))
 		return outcome13(e.Evaluate(execution.ExecutionContext{Context: context.Background()}))
 	}
-	return "bad-op"
+	return driveC13resolve(toks)
 }
 
 // ---------- generators ----------
@@ -520,6 +520,8 @@ func genC13(g *Gen, tier string, w *bufio.Writer) {
 			emitFn(w, "fnty", "pow", 0, f, f2)
 		}
 	}
+	// ---- overload resolution and evaluation of resolved calls
+	genResolve13(g, w, 2500*scale)
 	// ---- random
 	n := 1500 * scale
 	for i := 0; i < n; i++ {
